@@ -442,3 +442,105 @@ Proof.
   - apply (Permutation_in _ (Permutation_sym Hp)). apply (nth_error_In _ _ H).
 Qed.
 
+
+(* ====================================================================================== *)
+(* 12. MemoryStorage stays well formed under every op sequence; Term / Entries answer from the
+       contiguous list with ErrCompacted / ErrUnavailable exactly outside it *)
+Lemma ms_apply_snapshot_wf : forall s si st s', ms_apply_snapshot s si st = Ok s' -> wf_ms s' /\ ms_offset s' = Ok si.
+Proof.
+  intros s si st s' H. unfold ms_apply_snapshot in H. destruct (si <=? ms_snapi s); [discriminate|].
+  injection H as <-. split; [|reflexivity]. exists (mkE st si 0 0), []. split; [reflexivity|exact I].
+Qed.
+
+Lemma ms_create_snapshot_wf : forall s i s', wf_ms s -> ms_create_snapshot s i = Ok s' -> wf_ms s' /\ ms_ents s' = ms_ents s.
+Proof.
+  intros s i s' Hw H. unfold ms_create_snapshot in H. destruct (i <=? ms_snapi s); [discriminate|].
+  destruct (ms_offset s) as [off| |]; cbn [bind] in H; try discriminate.
+  destruct (ms_last_index s) as [last| |]; cbn [bind] in H; try discriminate.
+  destruct (last <? i); [discriminate|]. destruct (i <? off); [discriminate|].
+  destruct (nnth (i - off) (ms_ents s)); [|discriminate]. injection H as <-. split; [exact Hw|reflexivity].
+Qed.
+
+Lemma ms_compact_wf : forall s ci s', wf_ms s -> ms_compact s ci = Ok s' -> wf_ms s' /\ ms_offset s' = Ok ci.
+Proof.
+  intros s ci s' Hw H. pose proof Hw as (d & rest & Es & Hc). unfold ms_compact in H.
+  destruct (ms_offset s) as [off| |] eqn:Ho; cbn [bind] in H; try discriminate.
+  pose proof (wf_ms_contig_off _ _ Hw Ho) as Hall.
+  destruct (ci <=? off) eqn:E1; [discriminate|]. apply N.leb_gt in E1.
+  destruct (ms_last_index s) as [last| |]; cbn [bind] in H; try discriminate.
+  destruct (last <? ci); [discriminate|].
+  destruct (nnth (ci - off) (ms_ents s)) as [e|] eqn:En; [|discriminate]. injection H as <-.
+  unfold nnth in En. pose proof (contig_nth _ _ _ _ Hall En) as Hi.
+  split.
+  - exists (mkE (eterm e) (eindex e) 0 0), (nskipn (ci - off + 1) (ms_ents s)). split; [reflexivity|].
+    cbn [eindex]. unfold nskipn. pose proof (contig_skipn _ _ (N.to_nat (ci - off + 1)) Hall) as X.
+    replace (off + N.of_nat (N.to_nat (ci - off + 1))) with (eindex e + 1) in X by lia. exact X.
+  - unfold ms_offset. cbn. f_equal. lia.
+Qed.
+
+Lemma ms_append_wf : forall s e0 r s', wf_ms s -> contig (eindex e0) (e0 :: r) -> ms_append s (e0 :: r) = Ok s' -> wf_ms s'.
+Proof.
+  intros s e0 r s' Hw Hc H. pose proof Hw as (d & rest & Es & Hcr).
+  assert (Ho : ms_offset s = Ok (eindex d)) by (unfold ms_offset; rewrite Es; reflexivity).
+  destruct (N.le_gt_cases (eindex e0) (eindex d + nlen (ms_ents s))) as [L|G].
+  - destruct (ms_append_spec s e0 r Hw Hc (eindex d) Ho L) as (s'' & Ha & Hw'' & _). congruence.
+  - (* a gap: Append panics *)
+    exfalso. unfold ms_append in H. unfold ms_first_index in H. rewrite Ho in H. cbn [bind] in H.
+    pose proof (wf_ms_len _ Hw) as Hl1.
+    assert (Hn1 : 1 <= nlen (e0 :: r)) by (unfold nlen; simpl; lia).
+    replace (eindex e0 + nlen (e0 :: r) - 1 <? eindex d + 1) with false in H by (symmetry; apply N.ltb_ge; lia).
+    replace (eindex e0 <? eindex d + 1) with false in H by (symmetry; apply N.ltb_ge; lia).
+    try rewrite Ho in H. cbn [bind] in H.
+    replace (eindex e0 <? eindex d) with false in H by (symmetry; apply N.ltb_ge; lia).
+    replace (eindex e0 - eindex d <? nlen (ms_ents s)) with false in H by (symmetry; apply N.ltb_ge; lia).
+    replace (nlen (ms_ents s) =? eindex e0 - eindex d) with false in H by (symmetry; apply N.eqb_neq; lia).
+    discriminate.
+Qed.
+
+Inductive mop :=
+| MApplySnap (si st : N) | MCreateSnap (i : N) | MCompact (i : N) | MAppend (es : list entry).
+Definition mop_ok (o : mop) : Prop :=
+  match o with MAppend (e0 :: r) => contig (eindex e0) (e0 :: r) | _ => True end.
+Definition ms_step (s : mstore) (o : mop) : mstore :=
+  match o with
+  | MApplySnap si st => match ms_apply_snapshot s si st with Ok s' => s' | _ => s end
+  | MCreateSnap i => match ms_create_snapshot s i with Ok s' => s' | _ => s end
+  | MCompact i => match ms_compact s i with Ok s' => s' | _ => s end
+  | MAppend es => match ms_append s es with Ok s' => s' | _ => s end
+  end.
+
+Lemma wf_ms_new : wf_ms ms_new.
+Proof. exists (mkE 0 0 0 0), []. split; [reflexivity|exact I]. Qed.
+
+Theorem ms_wf_invariant : forall ops, Forall mop_ok ops -> wf_ms (fold_left ms_step ops ms_new).
+Proof.
+  intros ops H. assert (G : forall s, wf_ms s -> wf_ms (fold_left ms_step ops s)).
+  { induction H as [|o ops Ho Hops IH]; intros s Hs; [exact Hs|]. simpl. apply IH.
+    destruct o; cbn [ms_step].
+    - destruct (ms_apply_snapshot s si st) eqn:E; try exact Hs. apply (ms_apply_snapshot_wf _ _ _ _ E).
+    - destruct (ms_create_snapshot s i) eqn:E; try exact Hs. apply (ms_create_snapshot_wf _ _ _ Hs E).
+    - destruct (ms_compact s i) eqn:E; try exact Hs. apply (ms_compact_wf _ _ _ Hs E).
+    - destruct es as [|e0 r]; [exact Hs|]. destruct (ms_append s (e0 :: r)) eqn:E; try exact Hs.
+      apply (ms_append_wf _ _ _ _ Hs Ho E). }
+  apply G. exact wf_ms_new.
+Qed.
+
+(* Term: ErrCompacted below the dummy index, ErrUnavailable above the last index, otherwise the term
+   of the entry stored at that index *)
+Theorem ms_term_spec : forall s off i, wf_ms s -> ms_offset s = Ok off ->
+  (i < off -> ms_term s i = Err ErrCompacted) /\
+  (off + nlen (ms_ents s) <= i -> ms_term s i = Err ErrUnavailable) /\
+  (off <= i -> i < off + nlen (ms_ents s) ->
+     exists e, nnth (i - off) (ms_ents s) = Some e /\ eindex e = i /\ ms_term s i = Ok (eterm e)).
+Proof.
+  intros s off i Hw Ho. pose proof (wf_ms_contig_off _ _ Hw Ho) as Hall.
+  unfold ms_term. rewrite Ho. cbn [bind]. split; [|split].
+  - intros H. replace (i <? off) with true by (symmetry; apply N.ltb_lt; lia). reflexivity.
+  - intros H. replace (i <? off) with false by (symmetry; apply N.ltb_ge; lia).
+    replace (nlen (ms_ents s) <=? i - off) with true by (symmetry; apply N.leb_le; lia). reflexivity.
+  - intros H1 H2. replace (i <? off) with false by (symmetry; apply N.ltb_ge; lia).
+    replace (nlen (ms_ents s) <=? i - off) with false by (symmetry; apply N.leb_gt; lia).
+    unfold nnth. destruct (nth_error (ms_ents s) (N.to_nat (i - off))) as [e|] eqn:En.
+    + exists e. split; [reflexivity|]. split; [|reflexivity]. rewrite (contig_nth _ _ _ _ Hall En). lia.
+    + exfalso. apply nth_error_None in En. unfold nlen in H2. lia.
+Qed.
